@@ -132,6 +132,23 @@ mod env {
         }
     }
 
+    /// `std::env::var_os` reads the same three-valued environment (a change from `var(..)` to
+    /// `var_os(..).is_some()` must see "set to the empty string" as set-but-empty, not loop in std's real
+    /// environment lookup).
+    pub fn env_var_os_stub<K: AsRef<std::ffi::OsStr>>(_k: K) -> Option<std::ffi::OsString> {
+        unsafe {
+            match ENV {
+                0 => None,
+                1 => {
+                    let mut s = String::from("x");
+                    s.clear();
+                    Some(std::ffi::OsString::from(s))
+                }
+                _ => Some(std::ffi::OsString::from(String::from("1"))),
+            }
+        }
+    }
+
     pub fn env_var_stub<K: AsRef<std::ffi::OsStr>>(_k: K) -> Result<String, std::env::VarError> {
         unsafe {
             match ENV {
@@ -320,6 +337,7 @@ fn no_update_postcheck(w: &World) {
 #[cfg_attr(kani, kani::stub(std::fs::read_to_string, env::read_to_string_stub))]
 #[cfg_attr(kani, kani::stub(std::fs::write, env::write_stub))]
 #[cfg_attr(kani, kani::stub(std::env::var, env::env_var_stub))]
+#[cfg_attr(kani, kani::stub(std::env::var_os, env::env_var_os_stub))]
 #[cfg_attr(kani, kani::stub(str::replace, env::str_replace_stub))]
 #[cfg_attr(kani, kani::stub(core::result::Result::unwrap_or_default, env::unwrap_or_default_stub))]
 #[cfg_attr(kani, kani::stub(alloc::fmt::format, crate::verif_env::fmt_format_stub))]
@@ -340,6 +358,7 @@ pub fn c20_no_update_equal() {
 #[cfg_attr(kani, kani::stub(std::fs::read_to_string, env::read_to_string_stub))]
 #[cfg_attr(kani, kani::stub(std::fs::write, env::write_stub))]
 #[cfg_attr(kani, kani::stub(std::env::var, env::env_var_stub))]
+#[cfg_attr(kani, kani::stub(std::env::var_os, env::env_var_os_stub))]
 #[cfg_attr(kani, kani::stub(str::replace, env::str_replace_stub))]
 #[cfg_attr(kani, kani::stub(core::result::Result::unwrap_or_default, env::unwrap_or_default_stub))]
 #[cfg_attr(kani, kani::stub(alloc::fmt::format, crate::verif_env::fmt_format_stub))]
@@ -375,6 +394,7 @@ pub fn c20_no_update_mismatch() {
 #[cfg_attr(kani, kani::stub(std::fs::read_to_string, env::read_to_string_stub))]
 #[cfg_attr(kani, kani::stub(std::fs::write, env::write_stub))]
 #[cfg_attr(kani, kani::stub(std::env::var, env::env_var_stub))]
+#[cfg_attr(kani, kani::stub(std::env::var_os, env::env_var_os_stub))]
 #[cfg_attr(kani, kani::stub(str::replace, env::str_replace_stub))]
 #[cfg_attr(kani, kani::stub(core::result::Result::unwrap_or_default, env::unwrap_or_default_stub))]
 #[cfg_attr(kani, kani::stub(alloc::fmt::format, crate::verif_env::fmt_format_stub))]
